@@ -760,7 +760,7 @@ Section Prefix.
   Proof.
     intros Hc. induction F as [|F IH]; intros t a Hi Hp; cbn [accept_run]; [discriminate|].
     destruct (Nat.eq_dec (pos t) n) as [En|Hne].
-    - rewrite (accept_eof t c) by (rewrite Hi; lia || assumption).
+    - rewrite (accept_eof t c) by (first [assumption | rewrite Hi; lia]).
       intros H _. injection H as <-. exists (S F). split; [lia|reflexivity].
     - assert (HI : In_ t) by (split; [assumption|lia]).
       rewrite In_accept by assumption.
